@@ -380,9 +380,9 @@ def run(ctx):
             oracle(ctx, obs2)
             if any(v["found_input"] for v in ctx.violations):
                 break
-    ctx.cov["rule"] = ("all 25 paths x (2-4 fixed values + random values on a 1e-4 grid across each field's range) x 3 base setups (default KTP unpoled with auto angle; "
+    ctx.cov["rule"] = ("all 25 paths x (2-4 fixed values + random values on a 1e-4 grid across each field's range) x 4 base setups (default KTP unpoled with auto angle; "
                        "periodically poled KTP with Gaussian apodization, auto period; non-collinear BBO with explicit idler), each applied through a single-point SPDCIter; "
-                       "~95 unknown paths (neighbouring config fields, unit typos, case / character mutations of every valid path) in both positions; "
+                       "plus periodically poled LiNbO3 type-0 with Bartlett apodization, explicit period and an external signal angle; ~95 unknown paths (neighbouring config fields, unit typos, case / character mutations of every valid path) in both positions; "
                        "two-parameter sweeps over 8 path pairs x shapes incl. 1xN, Nx1, 1x1; distinct = distinct (base, path, value bits) / path / (pair, shape)")
     ctx.cov["clauses"] = {
         "only the named field changes (all 25 paths)": "proved over the generated table (record-level frame) + measured on SPDC::as_config",
